@@ -6,8 +6,7 @@
    model's elements stay distinguishable, which a zero-sized type's are not; coherence does not depend on that).
    PARTIAL with respect to the property text: (a) drop/clone accounting ("dropped exactly once, never duplicated") is not
    part of the functional model — it is observed by the harness ledger on every operation; Permutation is proved where
-   elements only move (C05, C10 element swap); (b) the macro arms are excluded here (they expand to covered constructors);
-   (c) "contents equal the row-of-rows reference model" is the sum of the refinement theorems of the other properties. *)
+   elements only move (C05, C10); (b) "contents equal the row-of-rows reference model" is the sum of the refinement theorems of the other properties. *)
 From Matreex Require Import Model.Step Model.Decode Proofs.IndexProofs Proofs.Coherence.
 
 (* a history whose operations all satisfy wf_op, with a non-trivial final pool *)
@@ -28,12 +27,14 @@ Qed.
 
 (* the same for a zero-sized element type (es = 0): transpose only swaps the shape, products still have the right extent *)
 Example C01_history_instance_zst :
-  let ops := [WithValue 0 2 3 7; CloneOp 1 0; Transpose 1; SwitchOrder 1; Multiply 2 0 1; Resize 2 1 5] in
+  let ops := [MacroOp 0 2 2 0 [[7; 8; 9]]; CloneOp 1 0; Transpose 1; SwitchOrder 1; Multiply 2 0 1; Resize 2 1 5; MacroOp 3 8 4 0 []] in
   Forall (wf_op (cfg64 false) 0) ops /\
   option_map (fun m => (nrows m, ncols m, size m)) (slot (fst (run_ops (cfg64 false) 0 ops empty_pool)) 2) = Some (1, 5, 5).
 Proof.
   split.
-  - repeat constructor; cbn; unfold is_usize; cbn; try lia.
+  - repeat constructor.
+    all: try (intros r H; cbv [zrepeat hd Z.to_nat Pos.to_nat Pos.iter_op Nat.add repeat In] in H; destruct H as [<-|[<-|[]]]).
+    all: vm_compute; discriminate.
   - vm_compute. reflexivity.
 Qed.
 
